@@ -340,3 +340,53 @@ CLAIM.update({
         ref="DESIGN.md section 4, C19", technique="property-based testing (rapid, grammar-based generator) + bounded-exhaustive grammar product; reference address model",
         note="found and fixed: panic on empty unix path (17767f1), parse error ignored (dd7c2b6)"),
 })
+
+PLAN["C14"] = dict(
+    quick=[dict(test="TestC14Rapid", checks=1500), *shards("TestC14Enum", 4), *shards("TestC14Sock", 6)],
+    thorough=[*shards("TestC14Rapid", 12, checks=15000), *shards("TestC14Enum", 4), *shards("TestC14Sock", 6)],
+)
+PLAN["C15"] = dict(
+    quick=[dict(test="TestC15Rapid", checks=1500), *shards("TestC15Enum", 6), *shards("TestC15Sock", 6)],
+    thorough=[*shards("TestC15Rapid", 12, checks=15000), *shards("TestC15Enum", 12), *shards("TestC15Sock", 6)],
+)
+
+LEVEL.update({"C14": "exploration", "C15": "exploration"})
+_LIFE = ("a generated history of 1-25 events applied to ONE real Service driven through a controllable fake listener (Accept returns what the "
+         "harness hands it: a net.Pipe connection, an injected timeout error, or the closed error; SetDeadline and Close are recorded), so every "
+         "step of the accept loop is ordered by the harness, never by timing. Events: client connects, calls (must be answered), closes, aborts "
+         "mid-frame, triggers a handler error; accept-timeout expiry; Shutdown while Accept is blocked; Shutdown where the pending Accept still "
+         "returns a connection ('accept won the race'); Shutdown before serving starts; cancellation of the serving context; a second Bind during "
+         "serving; re-Bind + re-serve of the same object (up to 4 cycles); a client arriving after serving ended. Model = automaton {serving, "
+         "draining, open set}: the active-connection accessor equals |open| after every event; after Shutdown the call has not returned while a "
+         "connection is open (event order, not durations), open connections are still answered, and it returns (nil) once the last one ends; an "
+         "expiry stops the service iff the open set is empty, then with ServiceTimeoutError; every return closed the listener and left no library "
+         "goroutine; the idle deadline is re-armed before every Accept and never without a timeout. ")
+RULE.update({
+    "C14": "case = " + _LIFE + "Plus the exhaustive product {3 Shutdown placements} x {0,1,2 open connections} x {5 ways to end} x {timeout 0 / non-zero}, and "
+           "real kernel listeners (filesystem unix, abstract unix, TCP) x {Listen, Bind+DoListen} x {0,1,2 open connections} x 2 cycles on the same "
+           "address. Non-trivial = a Shutdown with a connection open, a non-default Shutdown placement, or >= 2 serve cycles.",
+    "C15": "case = " + _LIFE + "Here 90% of the histories serve with a timeout and expiries are frequent. Plus all event sequences of length <=5 (6 thorough) over "
+           "{connect, close, abort, failcall, expiry}, and real-clock runs (150 ms timeout) on the three listener kinds x {Listen, Bind+DoListen} x "
+           "{0,1,2 connections held for 4 periods} x 2 cycles on the same address with one-sided margins (must not stop while held; must stop within "
+           "timeout + 5 s afterwards; then a dial must fail and the address must be servable again). Non-trivial = >=1 expiry with a connection "
+           "open and >=1 expiry with none.",
+})
+ASSUME.update({
+    "C14": ["interleavings inside one statement of the accept loop (between testing the flag and calling Accept) are reached only by the real-socket arm",
+            "a late client is given 2 ms (fake) / 150 ms (sockets) to be wrongly answered: a slow machine can hide, never fabricate, a violation"],
+    "C15": ["expiries are injected; the wall clock decides only in the real-socket arm, one-sidedly (4 periods held, timeout + 5 s to stop)"],
+})
+CLAIM.update({
+    "C14": dict(
+        text="Stateful model-based test with schedule control: generated event histories on one Service object through a fake listener that makes "
+             "every accept-loop step an explicit event, compared with a lifecycle automaton (drain order, return value, accounting via the white-box "
+             "counter, reuse); placement x connections x endings product enumerated; kernel-listener arm for the same properties.",
+        ref="DESIGN.md section 4, C14", technique="stateful model-based property testing (rapid-generated event histories, harness-owned schedule via a fake listener) + bounded-exhaustive product",
+        note="white-box accessors via -overlay; histories are explicit, replayable event lists"),
+    "C15": dict(
+        text="Same machine with deterministic accept-timeout injection: an expiry must stop the service exactly when no accepted connection is open, "
+             "the deadline must be re-armed before every Accept, and the endpoint must be released on a timeout return; all short event sequences "
+             "enumerated; real-clock runs on unix/abstract/TCP listeners with one-sided margins.",
+        ref="DESIGN.md section 4, C15", technique="stateful model-based property testing with injected expiries (fake listener) + bounded-exhaustive event sequences + real-clock runs",
+        note="found and fixed: listener not closed on a timeout return (79d85b9)"),
+})
